@@ -210,3 +210,56 @@ pub fn c10_rectify() {
     assert!(d[0] * e[0] == d[1] * e[1] && d[1] * e[1] == d[2] * e[2], "pow_delta_times_e_is_constant");
     kani::cover!(e[0].0 == 2 && e[1].0 == 5);
 }
+
+// ---------------------------------------------------------------------------------------------
+// cumulative scaling factors stay within [min_scaling, max_scaling]  (f64)
+//
+// Trick: every data entry is a POWER OF TWO with a SYMBOLIC EXPONENT (mantissa bits constant), so
+// products / quotients / reciprocals are exact exponent arithmetic and the bit-blasted multipliers
+// collapse; only sqrt of an odd power of two and the non-dyadic bounds 1e-4 / 1e4 round.  The data
+// range (2^-40 .. 2^40) spans 24 orders of magnitude, i.e. the badly scaled regime in which the
+// clipping is active over several sweeps.
+// ---------------------------------------------------------------------------------------------
+fn pow2_any(lo: i32, hi: i32) -> f64 {
+    let k: i32 = kani::any();
+    kani::assume(k >= lo && k <= hi);
+    f64::from_bits(((1023 + k) as u64) << 52)
+}
+
+fn bounds_pow2(sweeps: u32) {
+    let p = pow2_any(-40, 40);
+    let q = pow2_any(-40, 40);
+    let a = pow2_any(-40, 40);
+    let b = pow2_any(-10, 10);
+    let P = CscMatrix::<f64> { m: 1, n: 1, colptr: vec![0, 1], rowval: vec![0], nzval: vec![p] };
+    let A = CscMatrix::<f64> { m: 1, n: 1, colptr: vec![0, 1], rowval: vec![0], nzval: vec![a] };
+    let cones_t = [SupportedConeT::NonnegativeConeT(1)];
+    let mut st = settings_f64();
+    st.presolve_enable = false;
+    st.equilibrate_max_iter = sweeps;
+    let (lo, hi) = (st.equilibrate_min_scaling, st.equilibrate_max_scaling);
+    let mut data = DefaultProblemData::<f64>::new(&P, &[q], &A, &[b], &cones_t, &st);
+    let cones = cc::new_without_type_counts(&cones_t);
+    data.equilibrate(&cones, &st);
+    let eq = &data.equilibration;
+    let slack = 1.0 + 8.0 * f64::EPSILON;
+    assert!(eq.d[0] >= lo / slack && eq.d[0] <= hi * slack, "cumulative_d_within_bounds");
+    assert!(eq.e[0] >= lo / slack && eq.e[0] <= hi * slack, "cumulative_e_within_bounds");
+    assert!(eq.c >= lo / slack && eq.c <= hi * slack, "cumulative_c_within_bounds");
+    kani::cover!(eq.c < 1e-3, "objective scale driven to its lower bound");
+    kani::cover!(eq.d[0] > 1e3, "variable scale driven to its upper bound");
+}
+
+#[kani::proof]
+#[kani::unwind(5)]
+#[kani::stub(std::collections::hash_map::RandomState::new, stub_random_state)]
+pub fn c10_bounds_pow2_2sweeps() {
+    bounds_pow2(2);
+}
+
+#[kani::proof]
+#[kani::unwind(6)]
+#[kani::stub(std::collections::hash_map::RandomState::new, stub_random_state)]
+pub fn c10_bounds_pow2_3sweeps() {
+    bounds_pow2(3);
+}
